@@ -6,6 +6,15 @@ from . import core
 TRANSLATORS = [("election", "Election.lean"), ("txskel", "TxSkel.lean")]
 
 
+def regen():
+    os.makedirs(core.WORK, exist_ok=True)
+    log = open(os.path.join(core.WORK, "regen.log"), "w")
+    for name, gen in TRANSLATORS:
+        ok, msg = core.run_translator(name, gen, log)
+        print(f"translator {name}: {msg if ok else 'FAILED ' + msg}")
+    return 0
+
+
 def main():
     os.makedirs(core.WORK, exist_ok=True)
     log = open(os.path.join(core.WORK, "setup.log"), "w")
